@@ -113,8 +113,8 @@ def pos_stream(tier, q, t, mode='full'):
 
 PROPS['C01'] = dict(
     coq_crosscheck=True,
-    coq_targets=['Proofs/GenWF.vo', 'Proofs/GenWFBoard.vo', 'Proofs/StatusModel.vo', 'Proofs/GenSafeMain.vo', 'Proofs/GenKingMain.vo', 'Proofs/GenCastleMain.vo', 'Proofs/GenEpMain.vo', 'Proofs/GenEpOne.vo', 'Proofs/GenPseudoMain.vo', 'Proofs/GenAsmMain.vo', 'Proofs/GenAsmFinal.vo'],
-    prop_files=['C01a', 'C01'],
+    coq_targets=['Proofs/GenWF.vo', 'Proofs/GenWFBoard.vo', 'Proofs/StatusModel.vo', 'Proofs/GenSafeMain.vo', 'Proofs/GenKingMain.vo', 'Proofs/GenCastleMain.vo', 'Proofs/GenEpMain.vo', 'Proofs/GenEpOne.vo', 'Proofs/GenPseudoMain.vo', 'Proofs/GenAsmMain.vo', 'Proofs/GenAsmFinal.vo', 'Proofs/CorAReach.vo', 'Proofs/CorAQuick.vo', 'Proofs/CorAGame.vo'],
+    prop_files=['C01a', 'C01', 'C01c'],
     scope='see theorem list; the full refinement statement is kept as C01_full',
     streams=lambda tier: [pos_stream(tier, 14, 900, 'full')] + ([dict(stages=[H('endgame', 1), D('pos')], shards=16, seed_off=9)] if tier == 'thorough' else []),
     tags=['moves', 'oracle_moves', 'oracle_dup', 'legal_query.*', 'legal_quick.*', 'len0', 'len_vs_count', 'enumerate_moves', 'overflow', 'size_hint', 'obs_ch', 'obs_pin'] + COMMON_MODEL_TAGS,
@@ -131,7 +131,8 @@ PROPS['C02'] = dict(
 )
 PROPS['C03'] = dict(
     coq_crosscheck=True,
-    coq_targets=['Proofs/AbsBoard.vo', 'Proofs/NullMove.vo', 'Proofs/CanonAttack.vo', 'Proofs/CanonCheckers.vo', 'Proofs/CanonPinned.vo', 'Proofs/CanonNullMove.vo', 'Proofs/CanonScratch.vo'],
+    coq_targets=['Proofs/AbsBoard.vo', 'Proofs/NullMove.vo', 'Proofs/CanonAttack.vo', 'Proofs/CanonCheckers.vo', 'Proofs/CanonPinned.vo', 'Proofs/CanonNullMove.vo', 'Proofs/CanonScratch.vo', 'Proofs/CorAReach.vo', 'Proofs/CorAQuick.vo', 'Proofs/CorAGame.vo'],
+    prop_files=['C03', 'C03b'],
     scope='see theorem list',
     streams=lambda tier: [pos_stream(tier, 14, 900, 'succ')],
     tags=['obs_.*', 'oracle_checkers', 'oracle_pinned', 'reparse', 'succfs_.*', 'succ_ch', 'succ_pin', 'null_.*', 'nullfs_.*', 'impl_sane'] + COMMON_MODEL_TAGS,
@@ -140,7 +141,8 @@ PROPS['C03'] = dict(
 # C04: the thorough tier enumerates every K+X v K placement (X any piece of either colour, either
 # side to move: about 4.3 million accepted positions); the quick tier samples every 400th.
 PROPS['C04'] = dict(
-    coq_targets=['Proofs/GenWF.vo', 'Proofs/GenWFBoard.vo', 'Proofs/StatusModel.vo'],
+    coq_targets=['Proofs/GenWF.vo', 'Proofs/GenWFBoard.vo', 'Proofs/StatusModel.vo', 'Proofs/CorAReach.vo', 'Proofs/CorAQuick.vo', 'Proofs/CorAGame.vo'],
+    prop_files=['C04', 'C04b'],
     scope='see theorem list',
     streams=lambda tier: [pos_stream(tier, 20, 1200, 'nosucc'),
                           dict(stages=[H('endgame', sz(tier, 400, 1)), D('pos')], shards=16, seed_off=9, min_stat={'valid_positions': 500})],
@@ -148,8 +150,8 @@ PROPS['C04'] = dict(
     rule=POS_RULE,
 )
 PROPS['C05'] = dict(
-    coq_targets=['Proofs/SpecInvBase.vo','Proofs/SpecInvMoves.vo','Proofs/SpecInvEffect.vo','Proofs/SpecInvGoals.vo','Proofs/SpecInvExamples.vo','Proofs/RoundTripAbs.vo','Proofs/RoundTripSane.vo','Proofs/RoundTripMain.vo'],
-    prop_files=['C05', 'C05b'],
+    coq_targets=['Proofs/SpecInvBase.vo', 'Proofs/SpecInvMoves.vo', 'Proofs/SpecInvEffect.vo', 'Proofs/SpecInvGoals.vo', 'Proofs/SpecInvExamples.vo', 'Proofs/RoundTripAbs.vo', 'Proofs/RoundTripSane.vo', 'Proofs/RoundTripMain.vo', 'Proofs/CorAReach.vo', 'Proofs/CorAQuick.vo', 'Proofs/CorAGame.vo'],
+    prop_files=['C05', 'C05b', 'C05c'],
     scope='see theorem list',
     streams=lambda tier: [pos_stream(tier, 14, 900, 'succ')],
     tags=['oracle_valid_succ', 'oracle_monotone', 'impl_sane', 'sane', 'succ_flags', 'succ_model'] + COMMON_MODEL_TAGS,
@@ -166,7 +168,8 @@ PROPS['C08'] = dict(
     rule=POS_RULE + '; the hash of every position reached by moves or null moves is compared with the hash of the same position built from scratch from its neutral encoding (path independence) and std Hash with the FEN re-parse',
 )
 PROPS['C17'] = dict(
-    coq_targets=['Proofs/MirrorLib.vo', 'Proofs/MirrorGeneric.vo', 'Proofs/MirrorV.vo', 'Proofs/MirrorH.vo', 'Proofs/MirrorMain.vo'],
+    coq_targets=['Proofs/MirrorLib.vo', 'Proofs/MirrorGeneric.vo', 'Proofs/MirrorV.vo', 'Proofs/MirrorH.vo', 'Proofs/MirrorMain.vo', 'Proofs/CorB17Valid.vo', 'Proofs/CorB17.vo', 'Proofs/CorB17Main.vo'],
+    prop_files=['C17', 'C17b'],
     scope='see theorem list',
     streams=lambda tier: [dict(stages=[H('mirror', sz(tier, 8, 500)), D('mirror')], shards=16, min_stat={'mirror_pairs': 500})],
     tags=['mirror_.*'] + COMMON_MODEL_TAGS,
@@ -175,7 +178,8 @@ PROPS['C17'] = dict(
 )
 PROPS['C18'] = dict(
     coq_crosscheck=True,
-    coq_targets=['Proofs/AbsBoard.vo', 'Proofs/NullMove.vo', 'Proofs/CanonAttack.vo', 'Proofs/CanonCheckers.vo', 'Proofs/CanonPinned.vo', 'Proofs/CanonNullMove.vo', 'Proofs/CanonScratch.vo'],
+    coq_targets=['Proofs/AbsBoard.vo', 'Proofs/NullMove.vo', 'Proofs/CanonAttack.vo', 'Proofs/CanonCheckers.vo', 'Proofs/CanonPinned.vo', 'Proofs/CanonNullMove.vo', 'Proofs/CanonScratch.vo', 'Proofs/CorAReach.vo', 'Proofs/CorAQuick.vo', 'Proofs/CorAGame.vo'],
+    prop_files=['C18', 'C18b'],
     scope='see theorem list',
     streams=lambda tier: [pos_stream(tier, 20, 1200, 'nosucc')],
     tags=['null_.*', 'nullfs_.*'] + COMMON_MODEL_TAGS,
@@ -185,7 +189,8 @@ PROPS['C18'] = dict(
 
 # ---- text / game properties -------------------------------------------------------------
 PROPS['C06'] = dict(
-    coq_targets=['Proofs/FenSplit.vo', 'Proofs/FenPlacement.vo', 'Proofs/FenRoundtrip.vo', 'Proofs/FenWellformed.vo', 'Proofs/FenStd.vo', 'Proofs/FenBoard.vo', 'Proofs/FenCanon.vo'],
+    coq_targets=['Proofs/FenSplit.vo', 'Proofs/FenPlacement.vo', 'Proofs/FenRoundtrip.vo', 'Proofs/FenWellformed.vo', 'Proofs/FenStd.vo', 'Proofs/FenBoard.vo', 'Proofs/FenCanon.vo', 'Proofs/CorB06.vo'],
+    prop_files=['C06', 'C06b'],
     scope='see theorem list',
     streams=lambda tier: [
         dict(stages=[H('fen', sz(tier, 30, 2000)), D('fengen'), H('fenparse'), D('fen')], shards=16, min_stat={'fen_valid_positions': 1000, 'fen_with_ep_field': 5}),
@@ -197,7 +202,8 @@ PROPS['C06'] = dict(
 )
 PROPS['C07'] = dict(
     miri=True,
-    coq_targets=['Proofs/PopcntFacts.vo', 'Proofs/AcceptSound.vo', 'Proofs/MoveListCap.vo', 'Proofs/ParseTotal.vo'],
+    coq_targets=['Proofs/PopcntFacts.vo', 'Proofs/AcceptSound.vo', 'Proofs/MoveListCap.vo', 'Proofs/ParseTotal.vo', 'Proofs/CorB07.vo'],
+    prop_files=['C07', 'C07b'],
     scope='see theorem list',
     streams=lambda tier: [
         dict(stages=[H('fenfuzz', sz(tier, 4000, 400000)), D('fenfuzz')], shards=16),
@@ -212,15 +218,18 @@ PROPS['C07'] = dict(
     rule='mutated / truncated / structured-random FEN-like text and arbitrary Unicode through BoardBuilder::from_str and Board::from_str; arbitrary builder states (any piece anywhere, several kings, junk rights and en-passant file) and crowded boards (up to 55 men) through TryFrom; every accepted board goes through move generation, status, rendering and both move applications two plies deep; release build under catch_unwind and debug-assertion build (unchecked index / push past capacity abort the process there); distinct = distinct accepted inputs',
 )
 PROPS['C10'] = dict(
-    coq_targets=['Proofs/GameBase.vo', 'Proofs/GameThreefold.vo', 'Proofs/GameScan.vo', 'Proofs/GameProtocol.vo', 'Proofs/GameClaims.vo', 'Proofs/GameExamples.vo'],
+    coq_targets=['Proofs/GameBase.vo', 'Proofs/GameThreefold.vo', 'Proofs/GameScan.vo', 'Proofs/GameProtocol.vo', 'Proofs/GameClaims.vo', 'Proofs/GameExamples.vo', 'Proofs/CorAReach.vo', 'Proofs/CorAQuick.vo', 'Proofs/CorAGame.vo'],
+    prop_files=['C10', 'C10b'],
     scope='see theorem list',
-    streams=lambda tier: [dict(stages=[H('game', sz(tier, 150, 20000), 'mix'), D('game')], shards=16, min_stat={'game_ops': 5000})],
+    streams=lambda tier: [dict(stages=[H('game', sz(tier, 150, 20000), 'mix'), D('game')], shards=16, min_stat={'game_ops': 5000}),
+                          dict(stages=[H('game', sz(tier, 3, 200), 'draw'), D('game')], shards=16, seed_off=3)],
     tags=['game_.*', 'oracle_game_.*'] + COMMON_MODEL_TAGS,
     eval_stat='game_ops',
     rule='random interleavings of legal / illegal / random move attempts, draw offers by either colour, accepts, resignations and draw declarations from ongoing, near-terminal and already-finished start positions; every return value and result / side_to_move / can_declare_draw / log length after every step; distinct = distinct games with at least two accepted actions',
 )
 PROPS['C11'] = dict(
-    coq_targets=['Proofs/GameBase.vo', 'Proofs/GameThreefold.vo', 'Proofs/GameScan.vo', 'Proofs/GameProtocol.vo', 'Proofs/GameClaims.vo', 'Proofs/GameExamples.vo'],
+    coq_targets=['Proofs/GameBase.vo', 'Proofs/GameThreefold.vo', 'Proofs/GameScan.vo', 'Proofs/GameProtocol.vo', 'Proofs/GameClaims.vo', 'Proofs/GameExamples.vo', 'Proofs/DrawMeasure.vo', 'Proofs/DrawHistory.vo', 'Proofs/DrawExamples.vo'],
+    prop_files=['C11', 'C11b'],
     scope='see theorem list',
     streams=lambda tier: [
         dict(stages=[H('game', sz(tier, 5, 300), 'draw'), D('game')], shards=16, min_stat={'games_with_threefold': 3, 'games_with_fifty': 3}),
@@ -231,7 +240,8 @@ PROPS['C11'] = dict(
     rule='long reversible histories on sparse boards (quiet moves, a taste for returning to earlier positions, castling rights lost midway, occasional irreversible moves) with can_declare_draw after every step and declare_draw attempts, compared with Spec/Draw.v (threefold repetition of placement+turn+rights+en-passant state, or 100 half-moves without pawn move or capture); distinct = distinct games',
 )
 PROPS['C12'] = dict(
-    coq_targets=['Proofs/SanFilter.vo', 'Proofs/SanScan.vo', 'Proofs/SanShape.vo', 'Proofs/SanSweepA.vo', 'Proofs/SanSweepB.vo', 'Proofs/SanSpecShape.vo', 'Proofs/SanRoundtrip.vo', 'Proofs/SanLink.vo', 'Proofs/SanLinkCheck.vo'],
+    coq_targets=['Proofs/SanFilter.vo', 'Proofs/SanScan.vo', 'Proofs/SanShape.vo', 'Proofs/SanSweepA.vo', 'Proofs/SanSweepB.vo', 'Proofs/SanSpecShape.vo', 'Proofs/SanRoundtrip.vo', 'Proofs/SanLink.vo', 'Proofs/SanLinkCheck.vo', 'Proofs/CorB12.vo'],
+    prop_files=['C12', 'C12b'],
     scope='see theorem list',
     streams=lambda tier: [
         dict(stages=[H('pos', sz(tier, 4, 300), 'nosucc'), D('sangen'), H('sanparse'), D('san')], shards=16, min_stat={'san_spellings': 20000}),
